@@ -211,6 +211,13 @@ func termEq(a, b term) bool {
 	return true
 }
 
+// decoyCtx: an already cancelled context with a cache key of its own, for executors that are derived and thrown away.
+func decoyCtx() context.Context {
+	c, cancel := context.WithCancel(context.WithValue(context.Background(), cachepolicy.CacheKey, "decoy"))
+	cancel()
+	return c
+}
+
 func buildErrX(t term) error {
 	switch t.Op {
 	case "EFB":
@@ -1033,6 +1040,9 @@ func replaySeq(b fsBehaviour, unit time.Duration, entry int, variant int) (mis [
 		}
 		if rec.alt&2 != 0 {
 			ex = ex.WithContext(xctx).WithContext(nil)
+		}
+		if rec.alt&1 != 0 {
+			_ = ex.WithContext(decoyCtx()) // WithContext returns a copy: the executor it was called on keeps its own context
 		}
 		// the spec's log restricted to the listeners registered in this variant
 		{
